@@ -4,6 +4,7 @@
 #include <cstdint>
 #include <cstring>
 #include <limits>
+#include <memory>
 #include <sstream>
 #include <variant>
 #include <vector>
@@ -53,6 +54,7 @@ struct Case {
     {
         std::string name = std::string("backup<probe<") + vh::tn<V>() + "," + std::to_string(N) + ">,M=" + std::to_string(M) + ">";
         if (!vh::selected(name)) return;
+        std::unique_ptr<field_t> prev;
         for (unsigned b = 0; b < nboxes; ++b) {
             typename backend_t::configuration_t cfg;
             for (std::size_t k = 0; k < N; ++k) {
@@ -92,7 +94,20 @@ struct Case {
                 for (std::size_t j = 0; j < M; ++j) want_def[j] = bc_def;
             }
             vh::set_case("%s box#%u", name.c_str(), b);
-            field_t f(covfie::make_parameter_pack(std::move(cfg), std::monostate{}));
+            // two out of three fields reach their configuration by ASSIGNMENT over the previous iteration's field
+            // (another box, another default): nothing of the old value may survive
+            field_t built(covfie::make_parameter_pack(std::move(cfg), std::monostate{}));
+            std::unique_ptr<field_t> target = std::move(prev);
+            field_t * use = &built;
+            if (target && b % 3 == 1) {
+                *target = built;
+                use = target.get();
+            } else if (target && b % 3 == 2) {
+                *target = std::move(built);
+                use = target.get();
+            }
+            field_t & f = *use;
+            prev = std::make_unique<field_t>(f);
             typename field_t::view_t view(f);
             probe::NdLog & log = f.backend().get_backend().log();
             auto conf = f.backend().get_configuration();
